@@ -35,30 +35,60 @@ def run(chk, tier):
     except sym.Undecided as e:
         chk.blind("VN", FN, "loop nest could not be summarised: %s" % e, fn.where())
         return
-    chk.floor("loops in decoder", len(ls), 3)
-    chk.ob("VN", FN, len(ls) == 3 and [l["depth"] for l in ls] == [0, 1, 2], "loop nest has depths %s (expected three nested loops)" % [l["depth"] for l in ls], fn.where(), key="nest")
-    if len(ls) != 3:
+    nest = [l["depth"] for l in ls]
+    # the zones of one azimuth segment are read by a third nested loop, or by a collected iterator chain over 0..count
+    zone_seqs = set()
+    if nest == [0, 1]:
+        for conds, kind, val in ls[1]["paths"]:
+            if kind == "next":
+                for v in val.values():
+                    find_seqs(v, zone_seqs)
+    chk.floor("loops in decoder", len(ls) + len(zone_seqs), 3)
+    okn = nest == [0, 1, 2] or (nest == [0, 1] and len(zone_seqs) == 1)
+    chk.ob("VN", FN, okn, "loop nest has depths %s%s (expected three nested loops, the innermost possibly a collected iterator chain)" % (
+        nest, " and %d iterator chain(s)" % len(zone_seqs) if zone_seqs else ""), fn.where(), key="nest")
+    if not okn:
         return
-    outer, mid, inner = ls
+    outer, mid = ls[0], ls[1]
+    inner = ls[2] if len(ls) == 3 else None
+    zs = next(iter(zone_seqs)) if inner is None else None
     reader = P(fn.local_name(1) or "arg1")
     hdr = ("call", DES % (M + "header::Header"), (reader,))
     az = ("call", DES % (M + "azimuth_segment::AzimuthSegmentHeader"), (reader,))
     rz = ("call", DES % (M + "range_zone::RangeZone"), (reader,))
     # ---- bounds
     sw = loops.strip_widen
-    for name, lp in (("outer", outer), ("azimuth", mid), ("zones", inner)):
+    for name, lp in (("outer", outer), ("azimuth", mid)) + ((("zones", inner),) if inner else ()):
         chk.ob("VN", FN + "#" + name, loops.const_value(lp["start"]) == 0, "loop starts at %s (must start at 0)" % show(lp["start"]), lp["where"], key="start")
     expect(chk, "VN", FN + "#outer", sw(outer["N"]), cast(fld(okval(hdr), "elevation_segment_count"), "u16", "u8"), outer["where"], "outer loop bound")
     chk.ob("VN", FN + "#azimuth", loops.const_value(mid["N"]) == 360, "azimuth loop bound is %s (must be 360)" % show(mid["N"]), mid["where"], key="bound")
-    expect(chk, "VN", FN + "#zones", sw(inner["N"]), fld(okval(az), "range_zone_count"), inner["where"], "zone loop bound")
     # ---- iteration shapes
-    for name, lp, steps in (("outer", outer, 0), ("azimuth", mid, 1), ("zones", inner, 1)):
+    for name, lp in (("outer", outer), ("azimuth", mid)) + ((("zones", inner),) if inner else ()):
         shape(chk, fn, name, lp)
     # ---- what is pushed where
-    pushed(chk, fn, "zones", inner, "range_zones", lambda x, lp: x == okval(rz), "the zone decoded in this iteration")
+    if inner is not None:
+        expect(chk, "VN", FN + "#zones", sw(inner["N"]), fld(okval(az), "range_zone_count"), inner["where"], "zone loop bound")
+        pushed(chk, fn, "zones", inner, "range_zones", lambda x, lp: x == okval(rz), "the zone decoded in this iteration")
+    else:
+        chk.trust("Iterator::collect::<Result<Vec<_>, E>>() yields the elements' Ok payloads in order, or the first Err (core docs)")
+        rng = zs[1]
+        isr = rng[0] == "adt" and rng[1] == "core::ops::range::Range"
+        chk.ob("VN", FN + "#zones", isr and loops.const_value(fld(rng, "start")) == 0, "the zone chain starts at %s (must start at 0)" % (show(fld(rng, "start")) if isr else show(rng)[:80]),
+               mid["where"], key="start")
+        if isr:
+            expect(chk, "VN", FN + "#zones", sw(fld(rng, "end")), fld(okval(az), "range_zone_count"), mid["where"], "zone loop bound")
+        chk.ob("R-LIN", FN + "#zones", zs[2] == () and zs[3] == rz, "exactly one push into `range_zones` per iteration, of the zone decoded in this iteration (chain element: %s%s)" % (
+            show(zs[3])[:120], "" if zs[2] == () else ", adapters: %s" % (zs[2],)), mid["where"], key="push:range_zones")
+        fails = [p for p in mid["paths"] if p[1] == "exit:error" and any(len(c) == 3 and c[0] == ("discr", zs) and c[2] == ((1, 1),) for c in p[0])]
+        chk.ob("R-ERR", FN + "#zones", len(fails) >= 1, "%d error exit(s): a failed decode step returns Err" % len(fails), mid["where"], key="error-exits")
+        nx = [p for p in mid["paths"] if p[1] == "next"]
+        chk.ob("R-ERR", FN + "#zones", all(any(len(c) == 3 and c[0] == ("discr", zs) and c[2] == ((0, 0),) for c in p[0]) for p in nx),
+               "the way round the azimuth loop requires the success of the whole zone chain", mid["where"], key="next-conditions")
 
     def az_ok(x, lp):
         # AzimuthSegment after its zone loop; before that loop it was AzimuthSegment::new(this iteration's header, loop index)
+        if inner is None:
+            return x[0] == "adt" and fld(x, "header") == okval(az) and fld(x, "azimuth_segment") == lp["I"] and fld(x, "range_zones") == okval(zs)
         if x[0] != "after_loop":
             return False
         pre = x[3]
@@ -81,6 +111,16 @@ def run(chk, tier):
             v = common.at_point(got, F("op_code"), C(code, "u16"))
             expect(chk, "R-TABLE", M + "range_zone::RangeZone::op_code", v, unit_variant(OC, name), f2.where(), "op code %d" % code)
     # the generation date-time accessor is C08's
+
+
+def find_seqs(t, out):
+    if isinstance(t, tuple) and t:
+        if t[0] == "seq":
+            out.add(t)
+            return
+        for x in (t if isinstance(t[0], tuple) else t[1:]):
+            if isinstance(x, tuple):
+                find_seqs(x, out)
 
 
 def shape(chk, fn, name, lp):
